@@ -247,5 +247,8 @@ def check(prop, tier, run: Run, replay_case=None):
                        "more than one utility on a side carries duty, or the GCC has a pocket; distinct by (streams, ladders)")
     from . import trace_pipeline
     trace_pipeline.leg_t(run, prop, tier)
+    if prop == "C03":
+        from . import corpus
+        corpus.leg_t(run, prop, tier)
     if tier == "thorough":
         mutant_selftest(run)
